@@ -133,6 +133,8 @@ func randomCfg(r *rand.Rand, must ...string) world.Cfg {
 	r2 := rand.New(rand.NewSource(int64(h.Sum64())))
 	c.TwoFASetupFirst = len(c.TwoFA) > 0 && r2.Intn(3) == 0
 	c.AccessLog = []string{"", "", "current", "load"}[r2.Intn(4)]
+	c.StreamBodies = r2.Intn(3) == 0
+	c.AppendedRules = r2.Intn(2) == 0
 	return c
 }
 
